@@ -276,3 +276,38 @@ func Verif_C06_twice() {
 		verifapi.DeepEqual(mid["A"], s.knownConnectionCosts["A"]), verifapi.DeepEqual(mid["B"], s.knownConnectionCosts["B"]),
 		verifapi.DeepEqual(mid["C"], s.knownConnectionCosts["C"]), verifapi.DeepEqual(mid["D"], s.knownConnectionCosts["D"])))
 }
+
+// Verif_C06_concurrent_deliveries: two different updates of one origin (same epoch, sequences n and
+// n+1, different neighbour sets) are handled at the same time by two sessions (two goroutines, every
+// schedule within the pre-emption bound): whichever order they are processed in, the node ends up with
+// the newer one - its record, its neighbour set - never with the older one on top of the newer.
+func Verif_C06_concurrent_deliveries() {
+	n := verifNetceptor("A")
+	s := n.s
+	n.verifConn("B", 1)
+	n.verifConn("C", 1)
+	known := verifapi.Bool()
+	seq := verifapi.Uint64()
+	verifapi.Assume(verifapi.All(seq > 1, seq < 1000))
+	if known {
+		s.knownNodeInfo["X"] = &nodeInfo{Epoch: 7, Sequence: seq - 1}
+		s.knownConnectionCosts["X"] = map[string]float64{"P": 1}
+	}
+	older := &routingUpdate{NodeID: "X", UpdateID: "o", UpdateEpoch: 7, UpdateSequence: seq, Connections: map[string]float64{"OLD": 1}, ForwardingNode: "B"}
+	newer := &routingUpdate{NodeID: "X", UpdateID: "n", UpdateEpoch: 7, UpdateSequence: seq + 1, Connections: map[string]float64{"NEW": 2}, ForwardingNode: "C"}
+	verifapi.ExploreSchedules(2 + verifapi.Tier())
+	done := make(chan bool, 2)
+	go func() { s.handleRoutingUpdate(older, "B"); done <- true }()
+	go func() { s.handleRoutingUpdate(newer, "C"); done <- true }()
+	<-done
+	<-done
+	verifapi.ExploreSchedules(0)
+	verifapi.Quiesce()
+	verifapi.Cover("both-handled")
+	ni := s.knownNodeInfo["X"]
+	verifapi.Assert("record-is-the-newer-update", verifapi.All(ni != nil, ni.Epoch == 7, ni.Sequence == seq+1))
+	_, hasNew := s.knownConnectionCosts["X"]["NEW"]
+	_, hasOld := s.knownConnectionCosts["X"]["OLD"]
+	verifapi.Assert("picture-is-the-newer-update", verifapi.All(hasNew, !hasOld))
+	verifapi.Assert("no-lock-left-held", verifapi.HeldLocks() == 0)
+}
